@@ -388,7 +388,7 @@ package rtcp
 
 //@ func (p *SliceLossIndication) Header() (result Header)
 //@   safety[C09,C17]
-//@   ensures hdr: result == Header{Padding: false, Count: 2, Type: TypeTransportSpecificFeedback, Length: uint16((12+4*len(p.SLI))/4 - 1)}
+//@   ensures hdr: result == Header{Padding: false, Count: 2, Type: TypePayloadSpecificFeedback, Length: uint16((12+4*len(p.SLI))/4 - 1)}
 
 //@ func (p SliceLossIndication) Marshal() (result []byte, err error)
 //@   safety[C09]
